@@ -44,7 +44,7 @@ def loopFuel : Nat := 130
 /-- `usize` modulus -/
 def usz : Nat := 2 ^ 64
 /-- `index -= k` on `usize` in release mode (wraps) -/
-def subIdx (i k : Nat) : Nat := (i + (usz - k)) % usz
+def subIdx (i k : Nat) : Nat := ((usz - k) + i) % usz   -- big literal on the left: `x + 2^64` under `%` makes kernel `whnf` unfold `Nat.add` on the literal
 
 /-- `*buf.get_unchecked_mut(i) = v` -/
 def setU (b : Buf) (i v : Nat) : Res Buf := if i < b.length then .ok (b.set i v) else .fault
@@ -380,7 +380,7 @@ def mulhi128 (x y : Nat) : Nat :=
   w128 (w128 (w128 (x1 * y1) + w2) + w3)
 
 /-- `(n - quot * d as u128) as u64` with wrapping u128 arithmetic -/
-def remOf (n quot d : Nat) : Nat := w128 (n + (2 ^ 128 - w128 (quot * d))) % 2 ^ 64
+def remOf (n quot d : Nat) : Nat := w128 ((2 ^ 128 - w128 (quot * d)) + n) % 2 ^ 64
 
 def pow2U128Divrem (n mask shr : Nat) : Res (Nat × Nat) :=
   if shr ≥ 128 then .panic else .ok (n / 2 ^ shr, Nat.land mask (n % 2 ^ 64))
@@ -400,18 +400,19 @@ def moderateU128Divrem (n d factor factorShr : Nat) : Res (Nat × Nat) :=
   let quot := mulhi128 n factor / 2 ^ factorShr
   .ok (quot, remOf n quot d)
 
+/-- loop body of `slow_u128_divrem`: `r = (r << 1) | (q >> 127)` -/
+def slowR1 (q r : Nat) : Nat := Nat.lor (w128 (r * 2)) (q / 2 ^ 127)
+/-- `q = (q << 1) | carry as u128` -/
+def slowQ1 (q carry : Nat) : Nat := Nat.lor (w128 (q * 2)) carry
+/-- `s = (d.wrapping_sub(r).wrapping_sub(1) as i128) >> 127` is all ones iff the top bit is set; `carry = (s & 1)` -/
+def slowS (d r1 : Nat) : Nat := w128 ((2 ^ 128 - 1) + w128 ((2 ^ 128 - r1) + d)) / 2 ^ 127
+/-- `r -= (d as u128) & s as u128` -/
+def slowR2 (d r1 : Nat) : Nat := if slowS d r1 = 1 then w128 ((2 ^ 128 - d) + r1) else r1
+
 /-- the `while i < sr` loop of `slow_u128_divrem`; state `(q, r, carry)` -/
 def slowLoop (d : Nat) : Nat → Nat → Nat → Nat → Nat × Nat × Nat
   | 0, q, r, carry => (q, r, carry)
-  | k + 1, q, r, carry =>
-    let r := Nat.lor (w128 (r * 2)) (q / 2 ^ 127)
-    let q := Nat.lor (w128 (q * 2)) carry
-    -- s = (d.wrapping_sub(r).wrapping_sub(1) as i128) >> 127 : all ones iff the top bit is set
-    let t := w128 (w128 (d + (2 ^ 128 - r)) + (2 ^ 128 - 1))
-    let sbit := t / 2 ^ 127
-    let carry := sbit
-    let r := if sbit = 1 then w128 (r + (2 ^ 128 - d)) else r
-    slowLoop d k q r carry
+  | k + 1, q, r, carry => slowLoop d k (slowQ1 q carry) (slowR2 d (slowR1 q r)) (slowS d (slowR1 q r))
 
 def slowU128Divrem (n d dCtlz : Nat) : Res (Nat × Nat) :=
   let high := n / 2 ^ 64 % 2 ^ 64
